@@ -92,6 +92,12 @@ var c04Inputs = []string{
 	"func g(x) { x + 1 }; func f(x) { g(x) }; println(f(1)); func sw() { g(0); g = func(x) { x * 100 } }",
 	"sw(); println(f(1))",
 	"func two2() { verif_counter() }; func one1() { two2() }; func zero0() { one1() }; println(zero0(), zero0(), zero0())",
+	// large printed output of cached calls interleaved (the replayed bytes must be the call's own)
+	"func banner(ch) { println(ch * 6000); len(ch) }; banner(\"a\"); banner(\"b\"); banner(\"a\"); banner(\"b\")",
+	"func big2(ch) { print(ch * 5000); print(\"|\"); 1 }; println(big2(\"x\") + big2(\"y\") + big2(\"x\"))",
+	// variadic callee: a trailing array is spread; the cache key must be the spread arguments of this very call
+	"func total(a, ..) { println(\"total\", a, ..); a + len(..) }; println(total(100, [5, 6, 7])); println(total(100, 5)); println(total(100, 5, 6, 7)); println(total(100, [5]))",
+	"func vsum(..) { println(\"vsum\", ..); len(..) }; println(vsum([1, 2, 3, 4, 5, 6, 7, 8, 9]), vsum(1), vsum([1]), vsum(1, 2))",
 	// a name that is local to the function when first called and a global (defined afterwards) when called again
 	"func wr2(v) { gn = v; v }; println(wr2(5)); gn = 1; println(wr2(5), gn)",
 	"func rd3() { gm = 3; gm }; println(rd3()); gm = 1; println(rd3(), gm)",
